@@ -131,18 +131,19 @@ def plan(tier, groups, seed):
             cmds = []
             cmds += groups["H"]
             if is_smt(argv):
-                cmds += corpus.sample(groups["Xrule"], 100, seed + i)
-                cmds += corpus.sample(groups["Xcat"], 100, seed + i)
-                cmds += corpus.sample(groups["Xvoc"], 60, seed + i)
-                cmds += corpus.sample(groups["R"], 60, seed + i)
+                cmds += corpus.sample(groups["Xrule"], 50, seed + i)
+                cmds += corpus.sample(groups["Xcat"], 40, seed + i)
+                cmds += corpus.sample(groups["Xvoc"], 30, seed + i)
+                cmds += corpus.sample(groups["R"], 30, seed + i)
             else:
                 basic = len(argv) <= 2          # -greedy alone or with one more flag
                 cmds += groups["Xrule"] if basic else corpus.sample(groups["Xrule"], 400, seed + i)
-                cmds += corpus.sample(groups["Xchain"], 20000 if basic else 300, seed + i)
-                cmds += groups["Xcat"]
-                cmds += corpus.sample(groups["Xvoc"], 15000 if basic else 300, seed + i)
+                cmds += corpus.sample(groups["Xchain"], 5000 if basic else 200, seed + i)
+                cmds += groups["Xcat"] if basic else corpus.sample(groups["Xcat"], 150, seed + i)
+                cmds += corpus.sample(groups["Xvoc"], 6000 if basic else 200, seed + i)
+                cmds += corpus.sample(groups["Xwarm"], 2000 if basic else 100, seed + i)
                 cmds += groups["S"] if basic else corpus.sample(groups["S"], 100, seed + i)
-                cmds += groups["R"] if basic else corpus.sample(groups["R"], 500, seed + i)
+                cmds += corpus.sample(groups["R"], 2500 if basic else 250, seed + i)
             jobs.append((name, argv, [dict(c) for c in cmds]))
     return jobs
 
